@@ -328,7 +328,9 @@ def check_closure(prog, info, part):
         return
     wd = C.get_world(prog, info, "inst")
     C.fresh(wd, info)
-    cell_before = wd.f.__closure__[0].cell_contents
+    if "c" not in wd.f.__code__.co_freevars:
+        return  # rendered inside the factory, but the body does not use the closure variable
+    cell_before = wd.f.__closure__[wd.f.__code__.co_freevars.index("c")].cell_contents
     part["cases"] += 1
     part["evaluations"] += 1
     part["steps"] += 1
